@@ -83,56 +83,56 @@ Record task := { tk_id : N; tk_inc : N; tk_new : bool; tk_rest : prog }.
    number of try_join handles that finished with a panic; Stereotyp.on_panic_catch (a Cell of the
    ModuleContext: it can be changed at any time, survives a reset, and is read by Harness::catch) *)
 Record mst := { active : bool; inc : N; bud : N; shut : option (option N);
-  nw : option N; timers : list (N * task); ready : list task; tfin : list (N * N * N); catchf : bool;
-  hnd : list (N * N) }.
-(* [hnd]: the JoinHandles given to join / try_join, (incarnation, id), in order; [tfin]: the tasks that have
-   ended, (incarnation, id, how), how = 0 ran to completion | 1 panicked | 2 dropped with the tokio runtime.
-   Both survive shutdown and restart (AsyncCoreExt::reset replaces the runtime only). *)
+  nw : option N; timers : list (N * task); ready : list task; hnd : list (N * N); catchf : bool }.
+(* [hnd]: the JoinHandles given to join / try_join, (incarnation, id), in order; they survive shutdown and
+   restart (AsyncCoreExt::reset replaces the tokio runtime only). *)
 
 (* the simulation: event set, modules, Sim::error (entries (code, module): code 0 PanicError, 1 JoinError Paniced, 2 JoinError NotFinished, 3 JoinError Tokio),
    MOD_CTX (module context slot), BUF_CTX.events (event buffer) *)
 Record world := { w_fes : fes; w_mod : N -> mst; w_err : list (N * N);
-  w_cur : option N; w_buf : list (N * fev) }.
+  w_cur : option N; w_buf : list (N * fev); w_fin : list (N * N * N * N) }.
+(* [w_fin]: the tasks that have ended so far, (module, incarnation, id, how): how = 0 ran to completion |
+   1 panicked | 2 dropped unfinished with its tokio runtime (what the JoinHandles will report) *)
 
 Definition set_fes (w : world) (f : fes) : world :=
-  {| w_fes := f; w_mod := w_mod w; w_err := w_err w; w_cur := w_cur w; w_buf := w_buf w |}.
+  {| w_fes := f; w_mod := w_mod w; w_err := w_err w; w_cur := w_cur w; w_buf := w_buf w; w_fin := w_fin w |}.
 Definition set_mod (w : world) (m : N) (x : mst) : world :=
   {| w_fes := w_fes w; w_mod := fun i => if i =? m then x else w_mod w i; w_err := w_err w;
-     w_cur := w_cur w; w_buf := w_buf w |}.
+     w_cur := w_cur w; w_buf := w_buf w; w_fin := w_fin w |}.
 Definition set_err (w : world) (e : list (N * N)) : world :=
-  {| w_fes := w_fes w; w_mod := w_mod w; w_err := e; w_cur := w_cur w; w_buf := w_buf w |}.
+  {| w_fes := w_fes w; w_mod := w_mod w; w_err := e; w_cur := w_cur w; w_buf := w_buf w; w_fin := w_fin w |}.
 Definition set_cur (w : world) (c : option N) : world :=
-  {| w_fes := w_fes w; w_mod := w_mod w; w_err := w_err w; w_cur := c; w_buf := w_buf w |}.
+  {| w_fes := w_fes w; w_mod := w_mod w; w_err := w_err w; w_cur := c; w_buf := w_buf w; w_fin := w_fin w |}.
 Definition set_buf (w : world) (b : list (N * fev)) : world :=
-  {| w_fes := w_fes w; w_mod := w_mod w; w_err := w_err w; w_cur := w_cur w; w_buf := b |}.
+  {| w_fes := w_fes w; w_mod := w_mod w; w_err := w_err w; w_cur := w_cur w; w_buf := b; w_fin := w_fin w |}.
+
+Definition set_fin (w : world) (l : list (N * N * N * N)) : world :=
+  {| w_fes := w_fes w; w_mod := w_mod w; w_err := w_err w; w_cur := w_cur w; w_buf := w_buf w; w_fin := l |}.
 
 Definition set_active (x : mst) (a : bool) : mst :=
   {| active := a; inc := inc x; bud := bud x; shut := shut x; nw := nw x; timers := timers x;
-     ready := ready x; tfin := tfin x; catchf := catchf x; hnd := hnd x |}.
+     ready := ready x; hnd := hnd x; catchf := catchf x |}.
 Definition set_bud (x : mst) (b : N) : mst :=
   {| active := active x; inc := inc x; bud := b; shut := shut x; nw := nw x; timers := timers x;
-     ready := ready x; tfin := tfin x; catchf := catchf x; hnd := hnd x |}.
+     ready := ready x; hnd := hnd x; catchf := catchf x |}.
 Definition set_shut (x : mst) (s : option (option N)) : mst :=
   {| active := active x; inc := inc x; bud := bud x; shut := s; nw := nw x; timers := timers x;
-     ready := ready x; tfin := tfin x; catchf := catchf x; hnd := hnd x |}.
+     ready := ready x; hnd := hnd x; catchf := catchf x |}.
 Definition set_nw (x : mst) (n : option N) : mst :=
   {| active := active x; inc := inc x; bud := bud x; shut := shut x; nw := n; timers := timers x;
-     ready := ready x; tfin := tfin x; catchf := catchf x; hnd := hnd x |}.
+     ready := ready x; hnd := hnd x; catchf := catchf x |}.
 Definition set_timers (x : mst) (l : list (N * task)) : mst :=
   {| active := active x; inc := inc x; bud := bud x; shut := shut x; nw := nw x; timers := l;
-     ready := ready x; tfin := tfin x; catchf := catchf x; hnd := hnd x |}.
+     ready := ready x; hnd := hnd x; catchf := catchf x |}.
 Definition set_ready (x : mst) (l : list task) : mst :=
   {| active := active x; inc := inc x; bud := bud x; shut := shut x; nw := nw x; timers := timers x;
-     ready := l; tfin := tfin x; catchf := catchf x; hnd := hnd x |}.
+     ready := l; hnd := hnd x; catchf := catchf x |}.
 Definition set_catchf (x : mst) (b : bool) : mst :=
   {| active := active x; inc := inc x; bud := bud x; shut := shut x; nw := nw x; timers := timers x;
-     ready := ready x; tfin := tfin x; catchf := b; hnd := hnd x |}.
-Definition set_tfin (x : mst) (l : list (N * N * N)) : mst :=
-  {| active := active x; inc := inc x; bud := bud x; shut := shut x; nw := nw x; timers := timers x;
-     ready := ready x; tfin := l; catchf := catchf x; hnd := hnd x |}.
+     ready := ready x; hnd := hnd x; catchf := b |}.
 Definition set_hnd (x : mst) (l : list (N * N)) : mst :=
   {| active := active x; inc := inc x; bud := bud x; shut := shut x; nw := nw x; timers := timers x;
-     ready := ready x; tfin := tfin x; catchf := catchf x; hnd := l |}.
+     ready := ready x; hnd := l; catchf := catchf x |}.
 
 (* ---- the log ---- *)
 Inductive cb :=
@@ -231,7 +231,7 @@ Fixpoint tins (t : N) (tk : task) (l : list (N * task)) : list (N * task) :=
 (* a task ends: [how] 0 = ran to completion, 1 = panicked *)
 Definition end_task (m how : N) (s : xs) (tk : task) : xs :=
   say (ITaskEnd m (tk_id tk) (tk_inc tk) how)
-      (on_w (fun w => set_mod w m (set_tfin (w_mod w m) (tfin (w_mod w m) ++ [(tk_inc tk, tk_id tk, how)]))) s).
+      (on_w (fun w => set_fin w (w_fin w ++ [(m, tk_inc tk, tk_id tk, how)])) s).
 
 (* one poll of a task by the tokio runtime of module m *)
 Definition poll1 (k now m : N) (s : xs) (tk : task) : xs :=
@@ -327,9 +327,8 @@ Definition shutdown_part (c : modcfg) (now m : N) (w : world) : world * list ite
   | None => (w, [])
   | Some r =>
     let x1 := {| active := false; inc := inc x + 1; bud := bud x; shut := None; nw := nw_bump now (nw x);
-                 timers := []; ready := []; tfin := tfin x ++ map (fun id => (inc x, id, 2)) (dropped c x);
-                 catchf := catchf x; hnd := hnd x |} in
-    let w2 := set_mod w m x1 in
+                 timers := []; ready := []; hnd := hnd x; catchf := catchf x |} in
+    let w2 := set_fin (set_mod w m x1) (w_fin w ++ map (fun id => (m, inc x, id, 2)) (dropped c x)) in
     (match r with Some t => set_fes w2 (fes_add t (EvRestart m) (w_fes w2)) | None => w2 end,
      cancelled m c x ++ [IReset m now (inc x + 1)])
   end.
@@ -443,14 +442,15 @@ Definition sim_start (sc : script) (w : world) : world * list erec :=
 (* the join section of ModuleRef::at_sim_end: first the try_join handles in order (finished and panicked:
    JoinError Paniced; everything else is ignored), then the must_join handles in order (not finished:
    NotFinished; panicked: Paniced; dropped with an earlier tokio runtime: Tokio(cancelled)) *)
-Definition outcome (x : mst) (h : N * N) : option N :=
-  match find (fun e => (fst (fst e) =? fst h) && (snd (fst e) =? snd h)) (tfin x) with Some e => Some (snd e) | None => None end.
-Definition join_errs (c : modcfg) (m : N) (x : mst) : list (N * N) :=
+Definition outcome (fin : list (N * N * N * N)) (m : N) (h : N * N) : option N :=
+  match find (fun e => (fst (fst (fst e)) =? m) && (snd (fst (fst e)) =? fst h) && (snd (fst e) =? snd h)) fin with
+  | Some e => Some (snd e) | None => None end.
+Definition join_errs (c : modcfg) (m : N) (hs : list (N * N)) (fin : list (N * N * N * N)) : list (N * N) :=
   flat_map (fun h => if N.testbit (c_join c) (snd h) then []
-                     else match outcome x h with Some 1 => [(1, m)] | _ => [] end) (hnd x) ++
+                     else match outcome fin m h with Some 1 => [(1, m)] | _ => [] end) hs ++
   flat_map (fun h => if N.testbit (c_join c) (snd h)
-                     then match outcome x h with None => [(2, m)] | Some 0 => [] | Some 1 => [(1, m)] | Some _ => [(3, m)] end
-                     else []) (hnd x).
+                     then match outcome fin m h with None => [(2, m)] | Some 0 => [] | Some 1 => [(1, m)] | Some _ => [(3, m)] end
+                     else []) hs.
 
 (* ModuleRef::at_sim_end: the callback; unless it returned a PanicError, one more yield and
    the join section (the handle lists are drained there; nothing reads them afterwards) *)
@@ -460,7 +460,7 @@ Definition at_sim_end (k : N) (c : modcfg) (now m : N) (s : xs) : xs :=
   let s2 := {| x_w := w2; x_log := x_log s1 |} in
   if e then s2 else
     let s3 := poll_ready k now m s2 in
-    on_w (fun w => set_err w (w_err w ++ join_errs c m (w_mod w m))) s3.
+    on_w (fun w => set_err w (w_err w ++ join_errs c m (hnd (w_mod w m)) (w_fin w))) s3.
 
 (* SimLifecycle::at_sim_end: every module, active or not; no buf_process *)
 Definition end_one (sc : script) (now m : N) (acc : world * list erec) : world * list erec :=
@@ -484,12 +484,12 @@ Definition loop_step (sc : script) (st : lstate) : lstate + lstate :=
   end.
 
 Definition mst0 (c : modcfg) : mst :=
-  {| active := true; inc := 0; bud := c_bud c; shut := None; nw := None; timers := []; ready := []; tfin := [];
-     catchf := c_catch c; hnd := [] |}.
+  {| active := true; inc := 0; bud := c_bud c; shut := None; nw := None; timers := []; ready := []; hnd := [];
+     catchf := c_catch c |}.
 
 Definition init_world (sc : script) : world :=
   {| w_fes := fes_flush (map (fun p => (fst p, inj_ev (snd p))) (s_inj sc)) {| f_tcur := 0; f_zero := []; f_rest := [] |};
-     w_mod := fun m => mst0 (cfg sc m); w_err := []; w_cur := None; w_buf := [] |}.
+     w_mod := fun m => mst0 (cfg sc m); w_err := []; w_cur := None; w_buf := []; w_fin := [] |}.
 
 (* Life/Term.v proves that this fuel is never exhausted *)
 Definition prog_size (p : prog) : N := N.of_nat (length p).
